@@ -12,7 +12,7 @@ def to_event(c, o):
     ob = o["obs"]
     if c["k"] == "getattr":
         ev = {"k": "getattr", "cid": c["cid"], "key": c["key"], "args": c["args"], "panicked": "panic" in ob,
-              "ok": bool(ob.get("ok")), "val": ob.get("val", NULL)}
+              "ok": bool(ob.get("ok")), "val": ob.get("val", NULL), "tpl": ob.get("tpl", ""), "tplval": ob.get("tplval", NULL)}
         return ev
     pan = any(k.endswith("_panic") for k in ob)
     return {"k": "iterate", "cid": c["cid"], "panicked": pan, "iter_ok": bool(ob.get("iter_ok")), "iter_n": ob.get("iter_n", 0),
